@@ -76,7 +76,8 @@ func (P) Rule() string {
 		"Close() may be called by up to 4 concurrent callers; the origin of one exchange per connection may FAIL (f=: connection closed " +
 		"before any answer, truncated response head, timeout — stub released with an error, or the raw origin misbehaving): the client is owed " +
 		"the proxy's complete 502; the request of the parked exchange may announce a body and send only part of it (u=: Content-Length, " +
-		"Expect: 100-continue, chunked stopped mid-chunk), the rest being sent, or the client leaving, only once the response has arrived. Distinct by hash of the op; non-trivial when Close() was called " +
+		"Expect: 100-continue, chunked stopped mid-chunk), the rest being sent, or the client leaving, only once the response has arrived, or (u=7,8) an upload still in flight when shutdown is requested that the round tripper reads to the end; " +
+		"the proxy may have a HISTORY (hs=, he=): 1..4 earlier connections, each with 0..2 exchanges, opened and closed before the ones under test. Distinct by hash of the op; non-trivial when Close() was called " +
 		"while at least one connection was parked inside an exchange, held before the spawn, or accepted late, or (race) when at least " +
 		"one exchange started"
 }
@@ -146,13 +147,18 @@ type world struct {
 	tdial     map[int]string      // local address of the proxy's connection to the target, by connection index
 	mitm      bool
 	raw       bool // the proxy is handed the accepted *net.TCPConn itself (no observing wrapper)
+	inHist    bool     // the connections accepted now belong to the history (before the scenario's own)
+	hist      []*sconn // their server sides; numbered histBase+j in the log, renumbered when the trace is final
 }
+
+const histBase = 1000
 
 // cplan says where (if anywhere) the k-th connection is to be parked.
 type cplan struct {
 	point    string
 	parkSeq  int  // exchange number (0-based) on which to park
 	resClose bool // response Close on the parked exchange
+	readBody bool // the round tripper / origin reads the parked exchange's request body (an upload still in flight) before it answers
 	fault    int  // origin fault on exchange failSeq: 0 none, 1 connection closed before any answer (refused / reset), 2 truncated response head, 3 timeout
 	failSeq  int  // X-Seq of the exchange whose round trip fails (-1: none)
 	gate     chan struct{}
@@ -424,6 +430,14 @@ func (l *wlistener) Accept() (net.Conn, error) {
 	if tc, ok := c.(*net.TCPConn); ok && w.sbuf > 0 {
 		tc.SetWriteBuffer(w.sbuf << 10) // a small send buffer: a client that does not read stalls the writer early
 	}
+	if w.inHist {
+		hc := &sconn{Conn: c, w: w, k: histBase + len(w.hist), closed: make(chan struct{})}
+		w.hist = append(w.hist, hc)
+		w.conns[c.RemoteAddr().String()] = hc
+		w.log.add("acc:%d", hc.k)
+		w.mu.Unlock()
+		return hc, nil
+	}
 	k := len(w.byIdx)
 	sc := &sconn{Conn: c, w: w, k: k, closed: make(chan struct{})}
 	if k < len(w.plans) {
@@ -538,6 +552,17 @@ func (t rtrip) RoundTrip(req *http.Request) (*http.Response, error) {
 		t.w.log.add("rtx:%d:%s", sc.k, sanitize(err.Error()))
 		return nil, err
 	}
+	if sc.plan != nil && sc.plan.readBody && sc.plan.parkSeq == i {
+		// like a transport relaying an upload: the whole request body goes to the origin before the answer
+		b, err := io.ReadAll(req.Body)
+		if err != nil || len(b) != 1000 {
+			t.w.log.add("bad:%d:origin-got-%d-of-1000-request-body-bytes", sc.k, len(b))
+			if err == nil {
+				err = io.ErrUnexpectedEOF
+			}
+			return nil, err
+		}
+	}
 	if sc.plan != nil && sc.plan.fault > 0 && sc.plan.failSeq == i {
 		// the origin fails (event rtf): the proxy owes the client a 502, shutdown or not
 		t.w.log.add("rtf:%d", sc.k)
@@ -651,7 +676,6 @@ func (o *origin) handle(c net.Conn) {
 		if err != nil {
 			return
 		}
-		io.Copy(io.Discard, req.Body)
 		addr, i := ids(req)
 		var pl *cplan
 		faulty := 0
@@ -686,8 +710,16 @@ func (o *origin) handle(c net.Conn) {
 			head += "Connection: close\r\n"
 		}
 		if pl != nil && pl.point == "rt" {
-			pl.arrive()
+			pl.arrive() // the head has arrived; an upload may still be in flight
 			waitCh(pl.gate, 30*time.Second)
+		}
+		c.SetReadDeadline(time.Now().Add(60 * time.Second))
+		nb, berr := io.Copy(io.Discard, req.Body)
+		if pl != nil && pl.readBody && (berr != nil || nb != 1000) {
+			if sc := o.w.connOf(addr); sc != nil {
+				o.w.log.add("bad:%d:origin-got-%d-of-1000-request-body-bytes", sc.k, nb)
+			}
+			return
 		}
 		if faulty > 0 {
 			// origin fault: the connection dies before any answer, or in the middle of the response head
@@ -925,6 +957,7 @@ type client struct {
 	closed  int32       // the client closed its end on purpose
 	upIdx   int         // the response with this index answers a request whose body the client has not finished sending (-1: none)
 	upTail  []byte      // the rest of that body
+	bodyRead bool       // the upload is read to the end by the round tripper during the exchange
 	upLeave bool        // having the response, the client leaves instead of sending the rest
 	failIdx int         // the response with this index answers an exchange whose origin failed: a 502 (-1: none)
 	rchunk  int         // slow reader: bytes per read (0 = unthrottled)
@@ -1304,6 +1337,9 @@ func (cl *client) sendUpload(mode int, closeHdr bool) error {
 	if closeHdr && mode != 3 {
 		drains = 0
 	}
+	if cl.bodyRead { // the round tripper will have read the whole body before the response
+		drains = 0
+	}
 	cl.w.log.add("snd:%s:u:%d:%d", cl.key(), rc, drains)
 	cl.sent(false)
 	cl.seq++
@@ -1358,6 +1394,8 @@ type scenario struct {
 	sbuf  int  // sb: KiB of socket buffer on both ends of the client connections (0 = system default)
 	mitm  bool // m=1: the proxy MITMs CONNECT; the connections parked at the six points are MITM'd tunnels
 	abort bool // ab=1: after the stall the clients of the stalled connections close instead of reading
+	hist   int // hs: connections opened, used and CLOSED (client leaves, handler ends) before the connections under test
+	hexch  int // he: exchanges on each of them
 	nclose int // cl: number of concurrent callers of Close() (default 1)
 	rchunk int // rk: KiB the clients of the parked exchanges read at a time (0 = as fast as they can)
 	rpause int // rp: µs they pause between two reads
@@ -1449,7 +1487,7 @@ func parseScn(op string) (*scenario, bool) {
 				return nil, false
 			}
 			for _, x := range v {
-				if x > 6 {
+				if x > 8 {
 					return nil, false
 				}
 			}
@@ -1509,6 +1547,16 @@ func parseScn(op string) (*scenario, bool) {
 			case "rw":
 				sc.raw = kv[1] == "1"
 			}
+		case "hs", "he":
+			n, err := strconv.Atoi(kv[1])
+			if err != nil || n < 0 || n > 4 {
+				return nil, false
+			}
+			if kv[0] == "hs" {
+				sc.hist = n
+			} else {
+				sc.hexch = n
+			}
 		case "to", "pk":
 			n, err := strconv.Atoi(kv[1])
 			if err != nil || n < 0 || n > 6000 {
@@ -1547,7 +1595,7 @@ func parseScn(op string) (*scenario, bool) {
 	if sc.nclose == 0 {
 		sc.nclose = 1
 	}
-	if sc.raw && (sc.mitm || sc.stall > 0) {
+	if sc.raw && (sc.mitm || sc.stall > 0 || sc.hist > 0) {
 		return nil, false
 	}
 	if sc.tmo > 0 {
@@ -1591,6 +1639,15 @@ func parseScn(op string) (*scenario, bool) {
 	}
 	for i, u := range sc.upload {
 		if u == 0 {
+			continue
+		}
+		if u >= 7 {
+			// 7 / 8: Content-Length / chunked upload that the round tripper (stub, or the real transport relaying it
+			// to the raw origin) reads to the end before it answers; the client sends the rest only during the
+			// round trip, after shutdown was requested
+			if sc.stall > 0 || sc.rchunk > 0 || (sc.pts[i] != "reqmod" && sc.pts[i] != "rt") {
+				return nil, false
+			}
 			continue
 		}
 		// the stub round tripper answers from the head alone; the real transport would first upload the body
@@ -1680,6 +1737,9 @@ func runScenario(sc *scenario) (trace []string, v verdict, counted map[int]bool)
 		plans[k] = newPlan(sc.pts[k], sc.x[k], sc.s[k])
 		if sc.inTunnel(k) {
 			plans[k].parkSeq++ // the CONNECT that opened the tunnel was request 0
+		}
+		if sc.upload[k] >= 7 {
+			plans[k].readBody = true
 		}
 		if sc.fault[k] > 0 {
 			// which exchange's origin fails: the parked one where there is one (before, in or after its round
@@ -1807,6 +1867,50 @@ func runScenario(sc *scenario) (trace []string, v verdict, counted map[int]bool)
 		})
 	}
 
+	// 0. history: earlier connections of this proxy, opened, used and closed before the ones under test
+	if sc.hist > 0 {
+		w.mu.Lock()
+		w.inHist = true
+		w.mu.Unlock()
+		for j := 0; j < sc.hist; j++ {
+			hc, err := w.dial()
+			if err != nil {
+				v.set("c07:harness", "dial: %v", err)
+				return w.log.snapshot(), v, counted
+			}
+			want := j + 1
+			if !poll(stepDeadline, func() bool { w.mu.Lock(); defer w.mu.Unlock(); return len(w.hist) >= want }) {
+				v.set("c07:no-progress:accept", "history connection %d was not accepted", j)
+				return w.log.snapshot(), v, counted
+			}
+			hc.k = histBase + j
+			go hc.reader()
+			for e := 0; e < sc.hexch; e++ {
+				hc.sendFull(false)
+				w2 := int32(e + 1)
+				if !poll(stepDeadline, func() bool { return atomic.LoadInt32(&hc.resps) >= w2 }) {
+					v.set("c07:no-progress:warmup", "history connection %d: no complete response to exchange %d", j, e)
+					return w.log.snapshot(), v, counted
+				}
+			}
+			if sc.hexch == 0 { // its handler has at least started reading
+				hs := w.hist[j]
+				poll(stepDeadline, func() bool { return atomic.LoadInt32(&hs.inRead) == 1 })
+			}
+			hc.goneAway("tcl")
+			if !waitCh(w.hist[j].closed, stepDeadline) {
+				v.set("c07:conn-not-closed", "history connection %d was not closed after its client left", j)
+				return w.log.snapshot(), v, counted
+			}
+			waitCh(hc.eof, stepDeadline)
+		}
+		// the handlers have returned from conn.Close(); give their deferred conns.Done() a moment
+		time.Sleep(2 * time.Millisecond)
+		w.mu.Lock()
+		w.inHist = false
+		w.mu.Unlock()
+	}
+
 	// 1. drive every connection to its point
 	for k := 0; k < n; k++ {
 		pt := sc.pts[k]
@@ -1907,7 +2011,11 @@ func runScenario(sc *scenario) (trace []string, v verdict, counted map[int]bool)
 		default:
 			var err error
 			sentAt[k] = time.Now()
-			if u := sc.upload[k]; u > 0 {
+			if u := sc.upload[k]; u >= 7 {
+				cl.bodyRead = true
+				err = cl.sendUpload([]int{1, 3}[u-7], sc.q[k])
+				cl.upIdx = -1 // the rest follows during the round trip (release), not after the response
+			} else if u > 0 {
 				cl.upLeave = u > 3
 				err = cl.sendUpload((u-1)%3+1, sc.q[k])
 			} else {
@@ -2042,6 +2150,12 @@ func runScenario(sc *scenario) (trace []string, v verdict, counted map[int]bool)
 			}
 			w.log.add("open:%d", k)
 			plans[k].release()
+			if sc.upload[k] >= 7 {
+				// the upload goes on during the round trip, after shutdown was requested
+				w.log.add("snd:%d:t", k)
+				clients[k].c.SetWriteDeadline(time.Now().Add(stepDeadline))
+				clients[k].c.Write(clients[k].upTail)
+			}
 			if sc.pts[k] == "rbody" {
 				// the response modifier returns; the proxy relays what it has; then the origin sends the rest
 				if headFlushes {
@@ -2325,6 +2439,31 @@ func implLine(trace []string, early bool) string {
 	return fmt.Sprintf("ok n=%d early=%d", n, e)
 }
 
+// renumber: connections are numbered in the order the proxy accepted them — the h history connections
+// (logged as histBase+j) first, then the scenario's own.
+func renumber(trace []string, h int) []string {
+	if h == 0 {
+		return trace
+	}
+	out := make([]string, len(trace))
+	for i, t := range trace {
+		f := strings.SplitN(t, ":", 3)
+		if len(f) >= 2 {
+			if k, err := strconv.Atoi(f[1]); err == nil && k >= 0 {
+				if k >= histBase {
+					k -= histBase
+				} else {
+					k += h
+				}
+				f[1] = strconv.Itoa(k)
+				t = strings.Join(f, ":")
+			}
+		}
+		out[i] = t
+	}
+	return out
+}
+
 type ex struct{}
 
 func (P) NewExec() core.Exec { return &ex{} }
@@ -2359,6 +2498,7 @@ func (e *ex) do(op string) core.Result {
 			return core.Result{Impl: "bad-op", SkipModel: true}
 		}
 		trace, v, counted := runScenario(sc)
+		trace = renumber(trace, sc.hist)
 		_ = counted
 		jv, early := judge(trace)
 		if jv.fail != "" {
@@ -2399,6 +2539,9 @@ func (e *ex) do(op string) core.Result {
 		}
 		if sc.rchunk > 0 {
 			core.Count("slow-reader")
+		}
+		if sc.hist > 0 {
+			core.Count(fmt.Sprintf("history:%d-conns-%d-exchanges", sc.hist, sc.hexch))
 		}
 		if sc.tmo > 0 {
 			core.Count(fmt.Sprintf("proxy-timeout:%dms:parked-%dx", sc.tmo, sc.park/sc.tmo))
@@ -2870,6 +3013,9 @@ func uploadScn(r *core.Rand) string {
 		case "reqmod", "rt", "resmod", "write":
 			if i == k || r.Chance(1, 2) {
 				u[i] = r.Range(1, 6)
+				if (pts[i] == "reqmod" || pts[i] == "rt") && r.Chance(1, 2) {
+					u[i] = r.Range(7, 8) // the upload is still in flight during the round trip, which reads it
+				}
 			}
 		}
 	}
@@ -2882,6 +3028,37 @@ func uploadScn(r *core.Rand) string {
 		op += " cl=2"
 	}
 	return op
+}
+
+// withHistory: the same scenario on a proxy that has already seen 1..3 connections come and go (each with 0..2
+// exchanges), all of them closed before the connections under test are opened.
+func withHistory(r *core.Rand, op string) string {
+	if strings.Contains(op, " rw=1") {
+		return op
+	}
+	return op + fmt.Sprintf(" hs=%d he=%d", r.Range(1, 3), r.Range(0, 2))
+}
+
+// inflightGrid: an upload that is still in flight when shutdown is requested and that the round tripper reads to
+// the end — Content-Length / chunked × parked before / in the round trip × stub / real transport / MITM'd tunnel.
+func inflightGrid(emit func(ops []string)) {
+	for _, p := range []string{"reqmod", "rt"} {
+		for u := 7; u <= 8; u++ {
+			op := scnOp([]string{p}, []int{u - 7}, []int{0}, []int{0}, []int{0}, 64) + fmt.Sprintf(" u=%d", u)
+			emit([]string{op})
+			emit([]string{op + " t=1 te=0 d=500"})
+			emit([]string{op + " m=1"})
+		}
+	}
+}
+
+// historyGrid: every one of the six points (and a tunnel, a hijacker) on a proxy with a history.
+func historyGrid(emit func(ops []string)) {
+	for i, p := range []string{"idle", "head", "reqmod", "rt", "resmod", "write", "tunnel", "hjq"} {
+		emit([]string{scnOp([]string{p}, []int{0}, []int{0}, []int{0}, []int{0}, 64) + fmt.Sprintf(" hs=%d he=%d", 1+i%2, i%3)})
+	}
+	emit([]string{scnOp([]string{"rt", "reqmod"}, []int{0, 1}, []int{0, 0}, []int{0, 0}, []int{1, 0}, 64) + " hs=3 he=1 m=1"})
+	emit([]string{scnOp([]string{"rt"}, []int{0}, []int{0}, []int{0}, []int{0}, 64) + " hs=2 he=2 t=1 te=1 d=0"})
 }
 
 func uploadGrid(emit func(ops []string)) {
@@ -3157,6 +3334,20 @@ func (P) Gen(r *core.Rand, tier string, emit func(ops []string)) {
 		for i := 0; i < 30; i++ {
 			emit([]string{timeoutScn(r, false)})
 		}
+		inflightGrid(emit)
+		historyGrid(emit)
+		for i := 0; i < 600; i++ {
+			switch i % 4 {
+			case 0:
+				emit([]string{withHistory(r, randScn(r, i%8 == 0))})
+			case 1:
+				emit([]string{withHistory(r, randExt(r))})
+			case 2:
+				emit([]string{withHistory(r, randReal(r))})
+			default:
+				emit([]string{withHistory(r, uploadScn(r))})
+			}
+		}
 		return
 	}
 	// quick: exhaustive for 1 and 2 connections (6 + 36·2 scenarios), then a seeded sample
@@ -3205,6 +3396,20 @@ func (P) Gen(r *core.Rand, tier string, emit func(ops []string)) {
 	}
 	for i := 0; i < 2; i++ {
 		emit([]string{timeoutScn(r, true)})
+	}
+	inflightGrid(emit)
+	historyGrid(emit)
+	for i := 0; i < 40; i++ {
+		switch i % 4 {
+		case 0:
+			emit([]string{withHistory(r, randScn(r, i%8 == 0))})
+		case 1:
+			emit([]string{withHistory(r, randExt(r))})
+		case 2:
+			emit([]string{withHistory(r, randReal(r))})
+		default:
+			emit([]string{withHistory(r, uploadScn(r))})
+		}
 	}
 	// one slow-client scenario (≈ 7–9 s): clients stalled during the drain phase, bodies ≫ socket buffers
 	emit([]string{stallScn(r, r.Range(6500, 8500), r.Chance(1, 2), false)})
